@@ -386,6 +386,21 @@ func runC17(seed int64, tier string, out string) {
 							fmt.Sprintf("SELECT t.c1, %s OVER (%s) FROM t", fn, w)})
 					}
 				}
+				if k%2 == 1 && len(sortable) > 0 {
+					// DISTINCT (which removes nothing here: c1 is unique) re-projects the columns; the sort values an
+					// analytic function cached per cell must not survive it: the outer ORDER BY gives the same sequence
+					oc := cols[sortable[r.Intn(len(sortable))]]
+					oc2 := cols[1+r.Intn(len(cols)-1)]
+					for tries := 0; oc2.idx == oc.idx && tries < 20; tries++ {
+						oc2 = cols[1+r.Intn(len(cols)-1)]
+					}
+					if oc2.idx == oc.idx {
+						oc2 = qCol{"t.c1 + 0", 0}
+					}
+					list := fmt.Sprintf("%s, %s, t.c1, ROW_NUMBER() OVER (ORDER BY t.c1%s) AS rn", oc2.sql, oc.sql, []string{"", " DESC"}[r.Intn(2)])
+					tail := fmt.Sprintf(" FROM t ORDER BY %s%s, t.c1", oc.sql, []string{"", " DESC"}[r.Intn(2)])
+					pairs = append(pairs, [3]string{"seq:distinct-after-analytic", "SELECT DISTINCT " + list + tail, "SELECT " + list + tail})
+				}
 				for _, pq := range pairs {
 					res := [2]map[string]string{}
 					var errs [2]string
@@ -399,7 +414,11 @@ func runC17(seed int64, tier string, out string) {
 							continue
 						}
 						res[j] = map[string]string{}
-						for _, row := range viewRows(view) {
+						for ri, row := range viewRows(view) {
+							if strings.HasPrefix(pq[0], "seq:") { // the two results are compared as sequences of whole rows
+								res[j][fmt.Sprint(ri)] = fmt.Sprint(showValRows([][]value.Primary{row}))
+								continue
+							}
 							// SUM answers with a float, integer arithmetic with an integer: compare numbers as floats
 							cell := showVal(row[1])
 							if f := value.ToFloat(row[1]); !value.IsNull(f) {
